@@ -111,6 +111,16 @@ pub fn drive(args: &HashMap<String, String>) {
         let defs: Vec<String> = p.helpers.iter().map(|h| h.render()).collect();
         cs.push(Case { expr: p.body.render(), defs, envs, open: true, p });
     }
+    // DepthLadder sessions: open (free variable P1) and closed (P1 = the first argument list's value)
+    for (p, envs) in crate::p_compile::depth_ladder(n >= 1000) {
+        let defs: Vec<String> = p.helpers.iter().map(|h| h.render()).collect();
+        cs.push(Case { expr: p.body.render(), defs: defs.clone(), envs: envs.clone(), open: true, p: p.clone() });
+        if let V::P(first, _) = &envs[0] {
+            let vals: HashMap<String, V> = [("P1".to_string(), (**first).clone())].into_iter().collect();
+            let pc = Program { args: Pat::Nil, helpers: p.helpers.clone(), body: subst(&p.body, &vals) };
+            cs.push(Case { expr: pc.body.render(), defs, envs: vec![V::nil()], open: false, p: pc });
+        }
+    }
     // UseLadder sessions: open (free variables P1 P2) and closed (P1 = 1, P2 = 700)
     for (p, envs) in crate::p_compile::use_ladder(false) {
         let defs: Vec<String> = p.helpers.iter().map(|h| h.render()).collect();
@@ -161,7 +171,12 @@ pub fn drive(args: &HashMap<String, String>) {
         if kind == "const" || kind == "residual" {
             rep.nontrivial(&format!("{}|{}", c.defs.join(" "), c.expr));
         }
-        writeln!(tf, "{}", json!({"ast": c.p.to_json(), "open": c.open, "kind": kind, "value": r.get("const").cloned().unwrap_or(json!(["a", []])),
+        // TLC's JSON reader stops at 255 levels of nesting: a deeper program goes without its AST (the source-meaning
+        // clause, which is bounded by fuel anyway, is then not evaluated for it)
+        let ast = c.p.to_json();
+        let in_model = crate::util::json_depth(&ast) < 240;
+        let ast = if in_model { ast } else { Program { args: Pat::Nil, helpers: vec![], body: Expr::Lit(V::nil()) }.to_json() };
+        writeln!(tf, "{}", json!({"ast": ast, "in_model": in_model, "open": c.open, "kind": kind, "value": r.get("const").cloned().unwrap_or(json!(["a", []])),
             "envs": c.envs.iter().map(|e| e.to_json()).collect::<Vec<_>>(), "compiled": runs(compiled), "residual_compiled": runs(resid)})).unwrap();
         writeln!(cf, "{}", json!({"defs": c.defs, "expr": c.expr, "args": c.p.args.render(), "repl": r, "compiled": compiled, "residual_compiled": resid,
             "envs": c.envs.iter().map(|e| e.show()).collect::<Vec<_>>()})).unwrap();
